@@ -18,6 +18,11 @@ pub fn rule_text(vec: &Value) -> String {
             let g = FEATS[vec["g"].as_u64().unwrap() as usize - 1].2;
             format!("[α{name}] > [{}α{g}]", if vec["inv"].as_bool().unwrap() { "-" } else { "" })
         }
+        "combo" => {
+            let g = FEATS[vec["g"].as_u64().unwrap() as usize - 1].2;
+            let f1 = FEATS[vec["f1"].as_u64().unwrap() as usize - 1].2;
+            format!("[{sign}{f1}, α{name}] > [α{g}]")
+        }
         _ => panic!("unknown shape"),
     }
 }
@@ -27,12 +32,15 @@ pub fn replay() {
     replay_stdin(|vec| {
         sum.vectors += 1;
         let seg = json_seg(&vec["seg"]);
-        let word = v::make_word(&[(vec![seg], 0, 0)], false);
+        let combo = vec["shape"] == "combo";
+        // combo: a two-syllable word, the partner segment first (so that whatever a failed attempt on it leaves behind would reach the target)
+        let (seg2, exp2) = (json_seg(&vec["seg2"]), json_seg(&vec["exp2"]));
+        let word = if combo { v::make_word(&[(vec![seg2], 0, 0), (vec![seg], 0, 0)], false) } else { v::make_word(&[(vec![seg], 0, 0)], false) };
         let text = rule_text(&vec);
         let exp_ok = vec["st"].as_str().unwrap() == "ok";
         let exp = json_seg(&vec["exp"]);
         if exp != seg || !exp_ok { sum.nontrivial += 1; }
-        let rec = v::record(2_000_000, false, false, || {
+        let rec = crate::util::rec(2_000_000, false, false, || {
             let rules = v::parse_rules(&[RuleGroup::from_rules(vec![text.clone()])])?;
             v::apply_structural(&rules, word.clone())
         });
@@ -48,8 +56,9 @@ pub fn replay() {
             Ok(Err(_)) => !exp_ok,
             Ok(Ok(steps)) if exp_ok => steps.last().map(|st| {
                 let w = &st.word;
-                w.syllables.len() == 1 && w.syllables[0].segments.len() == 1 && w.syllables[0].segments[0] == exp
-                    && w.syllables[0].tone == 0 && stress_str(w.syllables[0].stress) == "U"
+                if combo { w.syllables.len() == 2 && w.syllables.iter().all(|s| s.segments.len() == 1 && s.tone == 0) && w.syllables[0].segments[0] == exp2 && w.syllables[1].segments[0] == exp }
+                else { w.syllables.len() == 1 && w.syllables[0].segments.len() == 1 && w.syllables[0].segments[0] == exp
+                    && w.syllables[0].tone == 0 && stress_str(w.syllables[0].stress) == "U" }
             }).unwrap_or(false),
             _ => false,
         };
